@@ -392,6 +392,8 @@ func (p *ParametersLiteral) UnmarshalJSON(b []byte) (err error) {
 	p.LogN = pl.LogN
 	p.LogNthRoot = pl.LogNthRoot
 	p.Q, p.P, p.LogQ, p.LogP = pl.Q, pl.P, pl.LogQ, pl.LogP
+	// An absent distribution means the default one: the receiver does not keep what it held.
+	p.Xs, p.Xe = nil, nil
 	if pl.Xs != nil {
 		p.Xs, err = ring.ParametersFromMap(pl.Xs)
 		if err != nil {
